@@ -199,7 +199,8 @@ def rNodeStep (g : Graph α) (res : α) (labels : List Nat) (acc : RSt α × Boo
       ({ refined := st.refined.set i t, outCl := w.1, inCl := w.2, cw := r.2.set lref zero },
        true, acc.2.2.tail)
 
-/-- `while increase:` -/
+/-- the loop `while increase:` without the bound on the number of passes (`none` = fuel exhausted): the
+    reference loop of the termination argument (C17: it ends by itself in exact arithmetic) -/
 def refineLoop (g : Graph α) (res : α) (labels : List Nat) :
     Nat → RSt α → List Nat → Option (RSt α × List Nat)
   | 0, _, _ => none
@@ -207,10 +208,21 @@ def refineLoop (g : Graph α) (res : α) (labels : List Nat) :
     let p := (List.range g.n).foldl (rNodeStep g res labels) (st, false, rands)
     if p.2.1 then refineLoop g res labels fuel p.1 p.2.2 else some (p.1, p.2.2)
 
-/-- `optimize_refine_core(...)`: refined labels (and the unused part of the oracle) -/
-def refineCore (g : Graph α) (res : α) (labels : List Nat) (fuel : Nat) (st : RSt α) (rands : List Nat) :
+/-- `while increase and n_pass <= n:` — the kernel makes at most `n + 1` passes and then returns the labels it
+    has (the first argument counts the passes still allowed) -/
+def refineCapped (g : Graph α) (res : α) (labels : List Nat) :
+    Nat → RSt α → List Nat → RSt α × List Nat
+  | 0, st, rands => (st, rands)
+  | passes+1, st, rands =>
+    let p := (List.range g.n).foldl (rNodeStep g res labels) (st, false, rands)
+    if p.2.1 then refineCapped g res labels passes p.1 p.2.2 else (p.1, p.2.2)
+
+/-- `optimize_refine_core(...)`: refined labels (and the unused part of the oracle).  The kernel bounds its passes
+    itself (`n + 1`), so it always returns; `_fuel` is no longer consulted (kept for the callers). -/
+def refineCore (g : Graph α) (res : α) (labels : List Nat) (_fuel : Nat) (st : RSt α) (rands : List Nat) :
     Option (List Nat × List Nat) :=
-  (refineLoop g res labels fuel st rands).map fun r => (r.1.refined, r.2)
+  let r := refineCapped g res labels (g.n + 1) st rands
+  some (r.1.refined, r.2)
 
 end kernel
 
